@@ -37,6 +37,27 @@ TRUSTED = ["glibc malloc/free as wrapped by -Wl,--wrap in harness/heap.c (block 
 
 DEFECTS = []
 
+MANIFEST = dict(
+   text="Lean 4 theorems over an executable model of json-c's reference-counting object API (json_object.c with the release points of "
+        "linkhash.c / arraylist.c): heap = id -> {_ref_count, payload slots, user-delete token}; json_object_put is an explicit "
+        "work list (depth-first, callback before teardown); constructors, get, put, object add/replace/re-add/delete, array "
+        "add/put_idx/insert_idx/del_idx, set_userdata/set_serializer, deep_copy (with an injected shallow-copy failure) and "
+        "json_pointer_set; a ghost map counts the references the caller holds and the model reports every call outside the "
+        "documented rules as misuse (decidable History.WF). Proved for every finite well-formed history and every call: no C-level "
+        "fault (the assert in put never fires, no put on freed memory, fuel never runs out), rc_accurate (count = caller references + "
+        "container slots, also mid-teardown with the pending work list), destroy_once / destroyed_never_reappears, "
+        "destroyed_iff_last (+ put returns 1 exactly when the released reference was the last, callbacks = those of the destroyed "
+        "nodes), survivor_usable, failed_keeps_ownership, all_released_empty (general DAG case, acyclicity is an invariant), "
+        "live_iff_owner_chain (live = reachable from a caller-held reference). The model is tied to the code by facts regenerated from "
+        "json_object.c / arraylist.c on every run and by a differential run of model, ownership spec (tracing collector) and the "
+        "ASan/UBSan-built library with wrapped malloc/free: per call the return value, the callbacks run, the node blocks freed, every "
+        "live node's _ref_count / userdata / children and the allocator block balance.",
+   note="Trusted: Lean kernel + propext/Classical.choice/Quot.sound; tools/extract; the differential harness (id<->pointer table, "
+        "--wrap accounting); allocation success (failure is C08). json_patch_apply is not modelled here (C13). The model is "
+        "hand-written: theorems are about the model, the correspondence run is testing.",
+   technique="Lean 4 proof (invariant with pending work list, induction over histories) + model/spec/implementation correspondence run",
+   design="6/C05")
+
 
 def hx(s):
     return s.encode().hex()
@@ -395,7 +416,7 @@ def gen_ptrset(rng, m):
         v, ok = pick_val(rng, m, target, prefer=cur_v)
         if not ok:
             return None
-        if m.body[target][0] == 'o' and rng.chance(0.03):
+        if m.body[target][0] == 'o' and m.ext.get(target, 0) > 0 and rng.chance(0.05):
             v = target                                                   # jso == val: refused
     else:
         c = m.owned()
@@ -470,6 +491,12 @@ SCENARIOS = [
     ["newo", "setser 0 -", "put 0"],
     # KEY_IS_NEW
     ["newo", "news", "news", "oadd 0 %s 1 2" % A, "oadd 0 %s 2 2" % B, "oadd 0 %s - 0" % A, "put 0"],
+    # json_pointer_set: value consumed on success (old member released), left with the caller on failure
+    ["newo", "newa", "news", "news", "oadd 0 %s 1 0" % A, "ptrset 0 %s 2" % hx("/a/-"), "ptrset 0 %s 3" % hx("/a/0"),
+     "news", "ptrset 0 %s 4" % hx("/a/5/x"), "ptrset 0 %s 4" % hx("/nokey/x"), "ptrset 0 %s 4" % hx("/a/01"),
+     "ptrset 0 %s 4" % hx("/a/0/deeper"), "get 4", "ptrset 0 %s 4" % hx("/a"), "put 0", "setud 4 5"],
+    ["newo", "news", "ptrset 0 - 1", "put 1"],
+    ["newa", "newo", "get 1", "aadd 0 1", "ptrset 0 %s 1" % hx("/0/self"), "ptrset 0 %s -" % hx("/3"), "put 1", "put 0"],
     # a DAG: one node in three slots of two containers, released in different orders
     ["newo", "newa", "news", "get 2", "get 2", "aadd 1 2", "aadd 1 2", "oadd 0 %s 2 0" % A, "oadd 0 %s 1 0" % B, "get 1", "put 0",
      "adel 1 0 1", "put 1"],
@@ -527,10 +554,10 @@ def enumerate_small(depth):
 
 def gen(rng, tier):
     yield from scenario_cases()
-    n = 1500 if tier == "quick" else 30000
+    n = 3000 if tier == "quick" else 30000
     for i in range(n):
         yield {"lines": gen_history(rng, rng.choice([4, 10, 25, 50, 80]))}
-    yield from enumerate_small(3 if tier == "quick" else 5)
+    yield from enumerate_small(4 if tier == "quick" else 5)
 
 
 # ---- comparison: a divergence on internal observables does not hide a later divergence on the
